@@ -435,6 +435,9 @@ pub fn cmd_open(a: &[&str]) -> String {
 /// fewer than k.  The daemon is idle afterwards: the first snapshot() of that reader must be B, the last completed publication.
 pub fn cmd_open_race(a: &[&str]) -> String {
     let k: usize = a.get(0).and_then(|x| x.parse().ok()).unwrap_or(1);
+    if a.get(1).copied() == Some("mid") {
+        return open_race_mid(k);
+    }
     let path = tmp_path("orace");
     let mut bytes = header_bytes(72, 1, 2);
     bytes.extend_from_slice(&[0u8; 56]);
@@ -479,6 +482,100 @@ pub fn cmd_open_race(a: &[&str]) -> String {
         Ok(s) => format!("ok {}", s),
         Err(p) => format!("panic {}", crate::panic_msg(&p).replace(' ', "_")),
     }
+}
+
+/// open_race <k> mid: the client opens the segment while an update is IN FLIGHT (generation odd, the first half of the record words
+/// already those of record B, the rest still those of record A); the update is completed (remaining words, then the even generation)
+/// at the k-th shared-memory access of ShmReader::new, or right after it returned.  The writer's steps are replayed by storing into a
+/// second mapping of the file, in the order the real write() makes them.  The first snapshot() afterwards must be record B as a whole.
+fn open_race_mid(k: usize) -> String {
+    let path = tmp_path("oracem");
+    let word = |b: i64, i: usize| -> [u8; 8] {
+        // record "b": as_of = (b, 0), void_after = (b + 1000, 0), bound = b, drift 1000 / reserved 0, status 1 / padding 0
+        let rec = record_words(b);
+        rec[i]
+    };
+    let mut bytes = header_bytes(72, 1, 2);
+    for i in 0..7 {
+        bytes.extend_from_slice(&word(111, i));
+    }
+    write_file(&path, &bytes);
+    let res = std::panic::catch_unwind(std::panic::AssertUnwindSafe(|| {
+        use std::os::unix::io::AsRawFd;
+        let f = std::fs::OpenOptions::new().read(true).write(true).open(&path).expect("open");
+        let base = unsafe { libc::mmap(std::ptr::null_mut(), 72, libc::PROT_READ | libc::PROT_WRITE, libc::MAP_SHARED, f.as_raw_fd(), 0) } as *mut u8;
+        assert!(base as isize != -1);
+        let base_addr = base as usize;
+        let store_gen = move |g: u16| unsafe { std::ptr::write_volatile((base_addr + 14) as *mut u16, g) };
+        let store_word = move |i: usize, b: i64| unsafe { std::ptr::write_volatile((base_addr + 16 + 8 * i) as *mut [u8; 8], record_words(b)[i]) };
+        // the update in flight: generation 3, words 0..3 already those of B
+        store_gen(3);
+        std::sync::atomic::fence(Ordering::SeqCst);
+        for i in 0..4 {
+            store_word(i, 222);
+        }
+        let finish = move || {
+            for i in 4..7 {
+                store_word(i, 222);
+            }
+            std::sync::atomic::fence(Ordering::SeqCst);
+            store_gen(4);
+        };
+        let cpath = CString::new(path.clone()).unwrap();
+        let n = std::rc::Rc::new(std::cell::Cell::new(0usize));
+        let done = std::rc::Rc::new(std::cell::Cell::new(0usize));
+        let (n2, d2) = (n.clone(), done.clone());
+        let fin2 = finish.clone();
+        set_observer(Some(Box::new(move |_acc| {
+            n2.set(n2.get() + 1);
+            if n2.get() == k && d2.get() == 0 {
+                d2.set(n2.get());
+                fin2();
+            }
+        })));
+        let reader = ShmReader::new(&cpath);
+        set_observer(None);
+        let accesses = n.get();
+        if done.get() == 0 {
+            finish();
+        }
+        let mut reader = match reader {
+            Ok(r) => r,
+            Err(e) => return format!("accesses_in_new={} completed_at={} open_err={}", accesses, done.get(), crate::shm_err_pub(&e).replace(' ', "_")),
+        };
+        let got = match reader.snapshot() {
+            Ok(c) => {
+                let b: [u8; 56] = unsafe { std::mem::transmute_copy(c) };
+                let ws: Vec<String> = (0..7).map(|i| if b[8 * i..8 * i + 8] == word(222, i) { "B".to_string() } else if b[8 * i..8 * i + 8] == word(111, i) { "A".to_string() } else { "?".to_string() }).collect();
+                ws.join("")
+            }
+            Err(e) => format!("err_{:?}", e).replace(' ', "_"),
+        };
+        unsafe { libc::munmap(base as *mut libc::c_void, 72) };
+        format!("accesses_in_new={} completed_at={} snapshot_words={}", accesses, done.get(), got)
+    }));
+    set_observer(None);
+    let _ = std::fs::remove_file(&path);
+    match res {
+        Ok(s) => format!("ok {}", s),
+        Err(p) => format!("panic {}", crate::panic_msg(&p).replace(' ', "_")),
+    }
+}
+
+fn record_words(b: i64) -> [[u8; 8]; 7] {
+    let mut w = [[0u8; 8]; 7];
+    w[0] = b.to_ne_bytes();
+    w[1] = 0i64.to_ne_bytes();
+    w[2] = (b + 1000).to_ne_bytes();
+    w[3] = 0i64.to_ne_bytes();
+    w[4] = b.to_ne_bytes();
+    let mut x = [0u8; 8];
+    x[..4].copy_from_slice(&1000u32.to_ne_bytes());
+    w[5] = x;
+    let mut y = [0u8; 8];
+    y[..4].copy_from_slice(&1u32.to_ne_bytes());
+    w[6] = y;
+    w
 }
 
 /// recreate <hex bytes>: ShmWriter::new over a file with the given (unusable) content; prints the file afterwards
